@@ -37,6 +37,8 @@ TRUSTED_REASONS = {
     'external_body: iter_quote_indices': 'document unit: stub for the paste!-generated TokenStringExt::iter_quote_indices (tokens.iter().enumerate().filter(is_quote).map(index)) + collect(): ASSUMED to yield exactly the positions of the quote tokens, in increasing order',
     'external_body: iter_allowed': 'mask_parser unit: Mask::iter_allowed is a one-line iterator adapter (allowed.iter().map(|s| (*s, s.get_content(source)))); ASSUMED to yield the allowed spans in order, each with the characters it covers (stub AllowedIter::next, covered by the generic `next` entry)',
     'external_body: correct_suffix_for': 'number_lint unit: an arbitrary total function (sp_correct); its correctness is the Kani full-domain harness number.suffix_full_domain',
+    'assume_specification: char::len_utf16': 'std: 1 for code points below U+10000, otherwise 2',
+    'assume_specification: std::option::Option::<&T>::copied': 'std: Option<&T>::copied copies the referent',
     'uninterp: sp_correct': 'what correct_suffix_for returns',
     'external_body: default': 'Lint::default is total; every field the rule relies on is overwritten',
     'external_body: clone': 'the derived Clone of Token returns an equal value',
